@@ -168,6 +168,34 @@ def check_cell(ctx, N, k, frozen_zeros, polar_i, mask_list=None, regimes=("sum_p
                 j = int(bad[0])
                 ctx.fail("C11.c_clean_decode", dcell, {**case, "decoder": dname, "regime": regime, "mag": mag, "message": sub[j].tolist()},
                          np.rint(out[j]).astype(int).tolist()[:40], sub[j].tolist()[:40], "noise-free LLRs are not decoded to the message", CHK)
+    # (c') the same decoder object after it has seen an arbitrary noisy batch of the same size: noise-free LLRs of other messages must
+    # still decode to those messages (no state may survive a call)
+    for dname, regime, d in decs:
+        dcell = {**cell, "decoder": dname, "regime": regime, "mode": "after_noisy_call"}
+        mag = 10.0
+        if regime == "sum_product":
+            nat0 = ((1 - 2 * Xs[0]) * mag).astype(np.float64)
+            nat0 = nat0[RS.bit_reverse_perm(m)] if polar_i else nat0
+            _, dl, _ = RS.sc_decode(nat0, mask, fv, "sum_product")
+            if mask.any() and np.abs(dl[mask]).min() < 1e-25:
+                continue
+        noisy = (rng.randn(*Xs.shape) * rng.choice([1.0, 30.0, 100.0])).astype(np.float32)
+        perm = rng.permutation(len(sub))
+        llr = ((1 - 2 * Xs[perm]) * mag).astype(np.float32)
+        rcase = {**case, "decoder": dname, "regime": regime, "mag": mag, "after_noisy_call": True}
+
+        def two_calls():
+            d(torch.from_numpy(noisy))
+            return d(torch.from_numpy(llr))
+        with quiet():
+            ok, out = ctx.call(two_calls, "C11.c_clean_raises", dcell, rcase, checker=CHK)
+        if not ok:
+            continue
+        out = out.detach().numpy()
+        ctx.ev(len(sub))
+        if out.shape != sub.shape or (np.rint(out) != sub[perm]).any():
+            ctx.fail("C11.c_clean_decode", dcell, rcase, None, None, "noise-free LLRs are not decoded to the message by a decoder object that decoded a noisy batch of the same size before", CHK)
+        ctx.cls("decoder_reuse_after_noisy_call")
     # (d) SC vs textbook on generated LLRs
     br = RS.bit_reverse_perm(m)
     for dname, regime, d in decs:
